@@ -446,4 +446,52 @@ def Outcome.stats : Outcome → List Stat
   | .ignore s => s
   | .respond _ _ s => s
 
+/-! ### the daemon's counters (`ntpd/src/daemon/server.rs`, `impl ServerStatHandler for ServerStats`) -/
+
+/-- the eleven counters of `ServerStats` (as increments / totals) -/
+structure Counters where
+  received : Nat := 0
+  accepted : Nat := 0
+  denied : Nat := 0
+  ignored : Nat := 0
+  rateLimited : Nat := 0
+  sendErrors : Nat := 0          -- `response_send_errors`: incremented by the send path only, never by `register`
+  ntsReceived : Nat := 0
+  ntsAccepted : Nat := 0
+  ntsDenied : Nat := 0
+  ntsRateLimited : Nat := 0
+  ntsNak : Nat := 0
+deriving DecidableEq, Repr
+
+def Counters.add (a b : Counters) : Counters :=
+  { received := a.received + b.received, accepted := a.accepted + b.accepted, denied := a.denied + b.denied,
+    ignored := a.ignored + b.ignored, rateLimited := a.rateLimited + b.rateLimited,
+    sendErrors := a.sendErrors + b.sendErrors, ntsReceived := a.ntsReceived + b.ntsReceived,
+    ntsAccepted := a.ntsAccepted + b.ntsAccepted, ntsDenied := a.ntsDenied + b.ntsDenied,
+    ntsRateLimited := a.ntsRateLimited + b.ntsRateLimited, ntsNak := a.ntsNak + b.ntsNak }
+
+/-- kinds under which a datagram is filed -/
+def Counters.kinds (c : Counters) : Nat := c.accepted + c.denied + c.ignored + c.rateLimited + c.ntsNak
+
+/-- `ServerStats::register(version, nts, reason, response)`: the increments one statistics entry causes -/
+def countersOf (st : Stat) : Counters :=
+  let kind : Counters :=
+    match st.response, st.reason with
+    | .time, _ => { accepted := 1 }
+    | .ignore, .rate => { rateLimited := 1 }
+    | .ignore, _ => { ignored := 1 }
+    | .deny, _ => { denied := 1 }
+    | .nak, _ => { ntsNak := 1 }
+  let nts : Counters :=
+    if st.nts then
+      match st.response, st.reason with
+      | .time, _ => { ntsReceived := 1, ntsAccepted := 1 }
+      | .deny, _ => { ntsReceived := 1, ntsDenied := 1 }
+      | .ignore, .rate => { ntsReceived := 1, ntsRateLimited := 1 }
+      | _, _ => { ntsReceived := 1 }
+    else {}
+  ({ received := 1 } : Counters).add (kind.add nts)
+
+def countersOfList (sts : List Stat) : Counters := sts.foldl (fun c st => c.add (countersOf st)) {}
+
 end NtpVerif.Server
